@@ -762,7 +762,7 @@ pub fn property(_tier: Tier) -> Property {
         parts: vec![Box::new(RandomPart {
             name: "replies",
             rule: "proptest: abstract replies of status (every subset of optional fields, MPD's order or shuffled, all state/single spellings, boundary numbers, MPD's extra lines audio/mixrampdb/time), stats, count, grouped count (repeated/empty/changing keys, songs/playtime in either order), list plain and grouped by 1-2 tags (MPD's nesting, empty keys), listplaylists, sticker get/list/find (values containing '='), channels, readmessages, tagtypes, update/rescan, replay_gain_status, addid; with probability 1/3 one value with a domain is replaced by an unambiguous out-of-domain spelling and the decoder must return Err. Decoded values compared field by field. Sticker and channel names and sticker values include multi-byte characters. The reply is decoded on a connection with a history in half of the cases (1-1500 distinct field names received earlier, the reply's own field names received earlier with other values, or an earlier line of 70 KiB-4 MiB). non-trivial = status with both present and absent optional fields, >=2 groups, sticker value containing '=', >=2 messages, or an out-of-domain variant; distinct by serialised case; runs with and without chrono",
-            cases: (100_000, 30_000_000),
+            cases: (100_000, 15_000_000),
             strategy: Box::new(|_t| {
                 on_used_connection(
                     (reply(), prop::option::weighted(0.33, (any::<u16>(), any::<u8>()).prop_map(|(which, how)| Spoil { which, how })))
